@@ -67,6 +67,18 @@ def run(prop, gi, g, tier, known, do_replay):
                 out["samples"].append({"obligation": name, "instances_discharged": len(lst), "detail": lst[0]["detail"][:200]})
     if not obs:
         out["inconclusive"].append("engine B produced no obligation for this property: " + "; ".join(d.get("errors", []))[:800])
+    # the encoder could not execute the (changed) code: the solver gives no verdict. As a safety net the native scenario
+    # families of the stream replay program are run; a natively failing scenario is still a real, replayed violation.
+    enc_fail = [i for i in out["inconclusive"] if "encode" in i or "outside the encoder" in i or "no obligation" in i]
+    if enc_fail and not out["violations"] and g.get("native_fallback", True) and do_replay and prop in ("C05", "C07", "C08", "C17", "C18"):
+        from . import streamreplay
+        fn = os.path.join(VERIF, "replays", prop, "native_fallback.txt")
+        os.makedirs(os.path.dirname(fn), exist_ok=True)
+        open(fn, "w").write(f"# {prop}: engine B could not encode the current tree ({enc_fail[0][:300]}); native scenario families run instead\n")
+        rp = streamreplay._confirm(prop, "native_fallback", dict(model_values={}), fn)
+        accept = {"C05": ("C05", "C07"), "C07": ("C07", "C05"), "C08": ("C08",), "C17": ("C17",), "C18": ("C18", "C07")}[prop]
+        if rp["reproduced"] and any(rp["detail"].startswith("FAIL " + a) for a in accept):
+            out["violations"].append(dict(harness="native scenario families (encoder fallback)", what=rp["detail"], replay=rp["path"]))
     out["evidence"] = dict(engine="mirsym (own MIR symbolic executor) + z3 " + d.get("z3_version", ""), lemmas=g["lemmas"],
                            functions_encoded=d["functions_encoded"], summaries=d["summaries"], mir_lines=d["mir_lines"],
                            mir_dump_s=d["mir_dump_s"], paths=d["stats"]["paths"], smt_queries=d["stats"]["queries"],
